@@ -203,3 +203,31 @@ class StateLoop:
         if node.orelse:
             it.exec_block(node.orelse, env)
         return None
+
+
+class SpecDict:
+    """An abstract dict, the mapping analogue of SpecList: the result of performing, in order, the
+    stores  d[key_i] = value_i  for i = 0..n-1 that the loop contract's spec assigns to the first n
+    iterations (tag names that spec), followed by the concretely known stores recorded since.
+    Only `d[k] = v` is supported; reading it back is not (the contract states what the stores are).
+    """
+
+    def __init__(self, tag, n, stores=()):
+        self.tag = tag
+        self.n = n
+        self.stores = list(stores)
+
+    def __repr__(self):
+        return f"SpecDict({self.tag}, n={self.n}, +{self.stores})"
+
+    def py_setitem(self, it, idx, v):
+        self.stores.append((idx, v))
+
+    def py_class(self, it):
+        return it.builtins["dict"]
+
+    def py_eq(self, it, o):
+        if isinstance(o, SpecDict) and o.tag == self.tag and len(o.stores) == len(self.stores):
+            return And(sym.eq(self.n, o.n), *[And(it.py_eq(a[0], b[0]), it.py_eq(a[1], b[1]))
+                                             for a, b in zip(self.stores, o.stores)])
+        raise Unsupported("comparison of an abstract dict with a different dict")
